@@ -228,6 +228,34 @@ Example C10_scope_ex :
      OErr (DGE "no-unused-target")].
 Proof. vm_compute. reflexivity. Qed.
 
+(* `parent:` naming a plain VALUE (round 5).  field_vars().get(parent) may be an object row or any value the recipe
+   computes (a field of the row being built, a hidden field, a variable), and the stored parent is compared with
+   `!=`: the parent token p of the model stands for the class of EQUAL parent values - two evaluations whose
+   parents are equal values carried by different Python objects have the same token.  (1) a call site evaluated
+   under a parent equal to the stored one continues its entry as it is (with C10_scope_outlives_iterations: for as
+   long as the value lasts, over any other operations; with C10_call_site_step: never a number twice); (2) after a
+   unique reference under parent p' the entry belongs to p': a different parent p evaluated next starts from
+   nothing - also when p was this site's parent before (a parent value that comes back opens a new scope). *)
+Theorem C10_scope_is_keyed_by_parent_value :
+  (forall ss s p st, lookupN s ss = Some st -> s_parent st = p -> site_get ss s p = st) /\
+  (forall h ss orc s p' name glob r ss' orc' p,
+     mstep_uref h ss orc s p' name glob = Ok (r, ss', orc') -> p <> p' ->
+     site_get ss' s p = mkSite p None [] []).
+Proof. exact scope_keyed_by_parent_value. Qed.
+Print Assumptions C10_scope_is_keyed_by_parent_value.
+
+(* non-vacuity: two targets; one call site evaluated for rows whose parent is the VALUE 1000, 1000, 1001, 1001,
+   1000, 1000, 1000: each run of equal values gets both targets once, the value 1000 coming back starts a new
+   scope, and the third evaluation under it is refused *)
+Example C10_parent_value_ex :
+  fst (mrun (mkM (rh_init [] [("A", "A")]) [] [0; 0; 0; 0; 0; 0; 0; 0; 0; 0; 0; 0])
+    [MSave "A" None 1; MSave "A" None 2;
+     MURef 1 1000 "A" false; MURef 1 1000 "A" false; MURef 1 1001 "A" false; MURef 1 1001 "A" false;
+     MURef 1 1000 "A" false; MURef 1 1000 "A" false; MURef 1 1000 "A" false])
+  = [ONone; ONone; ORefd "A" 1; ORefd "A" 2; ORefd "A" 1; ORefd "A" 2; ORefd "A" 1; ORefd "A" 2;
+     OErr (DGE "no-unused-target")].
+Proof. vm_compute. reflexivity. Qed.
+
 (* numbers and rows: by table name the row id is the number drawn; by nickname two different
    numbers never name the same row as long as the history holds no two rows with the same
    table and id (kept by every save of a fresh id) - so "no number twice" is "no row twice" *)
